@@ -192,6 +192,7 @@ pub fn generate<W: Write>(prop: &str, tier: &str, seed: u64, out: &mut W) {
         "C03" => gen_c03(&mut r, thorough, out),
         "C12" => gen_c12(&mut r, thorough, out),
         "C02" => gen_c02(&mut r, thorough, out),
+        "C15" => gen_c15(&mut r, thorough, out),
         "C04" | "C05" => gen_map(&mut r, thorough, out),
         "C06" | "C07" | "C08" | "C10" | "C13" | "C14" => gen_hist(prop, &mut r, thorough, out),
         _ => panic!("no generator for {prop}"),
@@ -487,6 +488,17 @@ pub fn gen_hist<W: Write>(prop: &str, r: &mut Rng, thorough: bool, out: &mut W) 
                 }
                 writeln!(out, "{head} ops=~ obs={}", obs.join(";")).unwrap();
             }
+            "C07" if round % 2 == 1 && round % 9 != 8 => {
+                // all files in one merge call
+                let nfiles = 2 + r.below(3);
+                let parts: Vec<String> = (0..nfiles)
+                    .map(|fi| {
+                        let (ns, nr) = (1 + r.below(3), r.below(10));
+                        rand_table(r, k, rc, ns, nr, &format!("g{fi}x"), amb, &pool).text()
+                    })
+                    .collect();
+                writeln!(out, "{head} ops=mergen/{}{} obs=nk", parts.join("&"), if r.chance(1, 4) { ";reload" } else { "" }).unwrap();
+            }
             "C07" => {
                 let nfiles = 1 + r.below(3);
                 let mut ops: Vec<String> = Vec::new();
@@ -611,7 +623,19 @@ pub fn gen_hist<W: Write>(prop: &str, r: &mut Rng, thorough: bool, out: &mut W) 
                             let (ns, nr) = (1 + r.below(2), r.below(8));
                             let t = rand_table(r, k, rc, ns, nr, &format!("m{fi}x"), amb, &pool);
                             names.extend(t.names.iter().cloned());
-                            ops.push(format!("merge/{}", t.text()));
+                            if r.chance(1, 3) {
+                                // several files in one merge call (k-mers present, absent, present again)
+                                let mut parts = vec![t.text()];
+                                for j in 0..(1 + r.below(2)) {
+                                    let (ns2, nr2) = (1 + r.below(2), r.below(8));
+                                    let t2 = rand_table(r, k, rc, ns2, nr2, &format!("m{fi}y{j}"), amb, &pool);
+                                    names.extend(t2.names.iter().cloned());
+                                    parts.push(t2.text());
+                                }
+                                ops.push(format!("mergen/{}", parts.join("&")));
+                            } else {
+                                ops.push(format!("merge/{}", t.text()));
+                            }
                         }
                         2 => {
                             if names.len() >= 2 {
@@ -1001,6 +1025,46 @@ fn gen_bloom<W: Write>(r: &mut Rng, thorough: bool, out: &mut W) {
         }
         let ks: Vec<String> = keys.iter().map(|k| k.to_string()).collect();
         writeln!(out, "bloom keys={}", ks.join(",")).unwrap();
+    }
+}
+
+/// C15: the consumers of the union algebra. One sample in which the same split k-mer occurs several
+/// times with different middle bases, in every order and multiplicity: ordinary k-mers (IUPAC table)
+/// and k-mers whose arms are their own reverse complement (the W/S/N update of the palindrome path)
+fn gen_c15<W: Write>(r: &mut Rng, thorough: bool, out: &mut W) {
+    let rounds = if thorough { 6000 } else { 400 };
+    for round in 0..rounds {
+        let k = *r.pick(&[5usize, 7, 9, 15, 31, 33, 63]);
+        let w = if k <= 31 && r.chance(4, 5) { 64 } else { 128 };
+        let h = (k - 1) / 2;
+        let rc = if round % 5 == 4 { 0 } else { 1 };
+        let u = rand_acgt(r, h);
+        // right arm: reverse complement of the left one (self-complementary arms) or unrelated
+        let palin = round % 2 == 0;
+        let right = if palin { revcomp(&u) } else { rand_acgt(r, h) };
+        let n = 1 + r.below(5);
+        let mut recs: Vec<String> = Vec::new();
+        let mut cur: Vec<u8> = Vec::new();
+        for _ in 0..n {
+            let mut win = u.clone();
+            win.push(*r.pick(&ACGT));
+            win.extend_from_slice(&right);
+            // the occurrence as it is, or on the other strand
+            let occ = if r.chance(1, 3) { revcomp(&win) } else { win };
+            if r.chance(1, 2) {
+                // same record, separated by an N so that no window spans two occurrences
+                if !cur.is_empty() {
+                    cur.push(b'N');
+                }
+                cur.extend_from_slice(&occ);
+            } else {
+                recs.push(s(&occ));
+            }
+        }
+        if !cur.is_empty() {
+            recs.push(s(&cur));
+        }
+        writeln!(out, "build w={w} k={k} rc={rc} recs={}", recs.join(",")).unwrap();
     }
 }
 
